@@ -13,6 +13,7 @@ CONSTANTS
   Others = {"r2"}
   FixF1 = FALSE
   FixF2 = FALSE
+  FixF3 = FALSE
 VIEW View
 INVARIANTS NoLossExceptSecondReader
 CHECK_DEADLOCK FALSE
